@@ -18,6 +18,9 @@
     ([c33_accepted_general], [c33_distinct_bookkeepers_count]), and that refusing duplicate
     bookkeepers restores the full statement ([c33_repaired_full]).
 
+    Hostile key encodings (a key object that is not a peer's genuine key but carries the peer's
+    id) are part of the model ([BkForged]); [c33_forged_key_never_accepted].
+
     Missing for the full statement: nothing on the proof side — the code does not have the
     property; the gap is exactly the duplicate-bookkeeper class. *)
 From Coq Require Import List Bool NArith ZArith Sorting.Permutation.
@@ -38,7 +41,7 @@ Definition c33_statement : Prop :=
 
 (** The finding class: the bookkeeper list names some key twice (same predicate as the driver's
     class crosschain-header:duplicate-bookkeeper). *)
-Definition in_finding_class (h : xheader) : bool := has_dup (h_bookkeepers h).
+Definition in_finding_class (h : xheader) : bool := has_dup (map bk_pid (h_bookkeepers h)).
 
 (** KNOWN FINDING (F12): 4 stored peers, bookkeepers [1;1;1], peer 1's signature three times:
     accepted with one signing peer out of four. *)
@@ -57,7 +60,7 @@ Print Assumptions c33_refuted.
     accepted, and [p] is the only peer with a valid signature. *)
 Theorem c33_one_peer_suffices :
   forall (st : hstore) (chain height msg : N) (pl : payload) (pm : list N) (p : N) (k : nat),
-    let h := mkHeader chain height msg (repeat p k) (repeat (SigOf p msg) k) pl in
+    let h := mkHeader chain height msg (map BkKey (repeat p k)) (repeat (SigOf p msg) k) pl in
     peer_set_for st h = Some pm -> In p pm -> (2 * Z.of_nat (length pm) <= 3 * Z.of_nat k)%Z ->
     (0 < k)%nat ->
     verify_header st h = ROk /\ NoDup pm /\ filter (has_valid_sig msg (h_sigs h)) pm = [p].
@@ -68,10 +71,11 @@ Proof.
     unfold get_consensus_peers in Hp. destruct (assoc2 (h_chain h) n (st_peers st)); [|discriminate].
     cbn in Hp. injection Hp as <-. apply peer_map_NoDup. }
   split; [|split; [exact Hn|]].
-  - apply (verify_header_accepts st h pm Hp).
-    + intros x Hx. cbn in Hx. apply repeat_spec in Hx. subst. exact Hin.
-    + cbn [h h_bookkeepers]. rewrite repeat_length. exact Hc.
-    + cbn [h h_sigs h_bookkeepers h_msg]. clear. induction k; cbn; [reflexivity | f_equal; assumption].
+  - apply (verify_header_accepts st h pm (repeat p k) Hp).
+    + reflexivity.
+    + intros x Hx. apply repeat_spec in Hx. subst. exact Hin.
+    + rewrite repeat_length. exact Hc.
+    + cbn [h h_sigs h_msg]. clear. induction k; cbn; [reflexivity | f_equal; assumption].
   - apply (signing_peers_single pm p h Hn Hin).
     + intros s Hs. cbn in Hs. apply repeat_spec in Hs. exact Hs.
     + cbn. destruct k; [inversion Hk | discriminate].
@@ -99,8 +103,8 @@ Theorem c33_accepted_general :
     verify_header st h = ROk ->
     exists pm, peer_set_for st h = Some pm /\ NoDup pm /\
       (2 * Z.of_nat (length pm) <= 3 * Z.of_nat (length (h_bookkeepers h)))%Z /\
-      (forall k, In k (h_bookkeepers h) ->
-         In k pm /\ existsb (sig_verify k (h_msg h)) (h_sigs h) = true).
+      (forall b, In b (h_bookkeepers h) ->
+         exists k, b = BkKey k /\ In k pm /\ existsb (sig_verify k (h_msg h)) (h_sigs h) = true).
 Proof. exact verify_header_ok_general. Qed.
 Print Assumptions c33_accepted_general.
 
@@ -109,7 +113,7 @@ Theorem c33_distinct_bookkeepers_count :
   forall (st : hstore) (h : xheader),
     verify_header st h = ROk ->
     exists pm, peer_set_for st h = Some pm /\ NoDup pm /\
-      (length (nodup N.eq_dec (h_bookkeepers h))
+      (length (nodup N.eq_dec (map bk_pid (h_bookkeepers h)))
        <= length (filter (has_valid_sig (h_msg h) (h_sigs h)) pm))%nat.
 Proof. exact distinct_bookkeepers_sign. Qed.
 Print Assumptions c33_distinct_bookkeepers_count.
@@ -219,6 +223,29 @@ Proof.
 Qed.
 Print Assumptions c33_governing_set_partial.
 
+(** Hostile key ENCODINGS.  A bookkeeper entry whose decoded key object is not a genuine key
+    ([BkForged pid]: e.g. an uncompressed off-curve point sharing X and the parity of Y with peer
+    [pid], so that it has that peer's id) is never part of an accepted header: under such a key the
+    library's verify fails or panics, signature.verify turns both into "does not verify", and
+    VerifyHeader needs every listed position verified. *)
+Theorem c33_forged_key_never_accepted :
+  forall (st : hstore) (h : xheader),
+    verify_header st h = ROk -> forall b, In b (h_bookkeepers h) -> exists k, b = BkKey k.
+Proof.
+  intros st h E b Hb. destruct (verify_header_ok_general st h E) as [pm [_ [_ [_ Hk]]]].
+  destruct (Hk b Hb) as [k [-> _]]. exists k. reflexivity.
+Qed.
+Print Assumptions c33_forged_key_never_accepted.
+
+(** VerifyMultiSignature with nothing but keys under which verify fails or panics returns an
+    error for every positive threshold and every signature list. *)
+Theorem c33_multisig_forged_only_errors :
+  forall msg keys m sigs,
+    (forall b, In b keys -> exists p, b = BkForged p) -> (0 < m)%Z ->
+    verify_multi msg keys m sigs <> None.
+Proof. exact verify_multi_forged_only. Qed.
+Print Assumptions c33_multisig_forged_only_errors.
+
 (** The model's "index out of range" value is never produced. *)
 Theorem c33_no_panic : forall st h, verify_header st h <> RErr EPanic.
 Proof. exact verify_header_no_panic. Qed.
@@ -228,25 +255,26 @@ Print Assumptions c33_no_panic.
     stored peers reaching the count, each signing once, is accepted (general), and a concrete
     4-peer state with 3 distinct signers is accepted with exactly those 3 counted. *)
 Theorem c33_honest_accepted :
-  forall (st : hstore) (h : xheader) (pm : list N),
+  forall (st : hstore) (h : xheader) (pm ks : list N),
     peer_set_for st h = Some pm ->
-    (forall k, In k (h_bookkeepers h) -> In k pm) ->
-    (2 * Z.of_nat (length pm) <= 3 * Z.of_nat (length (h_bookkeepers h)))%Z ->
-    h_sigs h = map (fun k => SigOf k (h_msg h)) (h_bookkeepers h) ->
+    h_bookkeepers h = map BkKey ks ->
+    (forall k, In k ks -> In k pm) ->
+    (2 * Z.of_nat (length pm) <= 3 * Z.of_nat (length ks))%Z ->
+    h_sigs h = map (fun k => SigOf k (h_msg h)) ks ->
     verify_header st h = ROk.
 Proof. exact verify_header_accepts. Qed.
 Print Assumptions c33_honest_accepted.
 
 Example c33_nonvacuous :
   let st := mkStore [(1, [10; 0])] [((1, 0), [1; 2; 3; 4]); ((1, 10), [5; 6; 7])] in
-  let h := mkHeader 1 5 7 [3; 1; 2] [SigOf 1 7; SigOf 2 7; SigOf 3 7] PNone in
+  let h := mkHeader 1 5 7 [BkKey 3; BkKey 1; BkKey 2] [SigOf 1 7; SigOf 2 7; SigOf 3 7] PNone in
   in_finding_class h = false /\ verify_header st h = ROk /\
   peer_set_for st h = Some [1; 2; 3; 4] /\
   filter (has_valid_sig (h_msg h) (h_sigs h)) [1; 2; 3; 4] = [1; 2; 3] /\
   (* one signature fewer, or a signature by a non-listed peer, is refused *)
-  verify_header st (mkHeader 1 5 7 [3; 1; 2] [SigOf 1 7; SigOf 2 7] PNone) = RErr ENotEnoughSigs /\
-  verify_header st (mkHeader 1 5 7 [3; 1; 2] [SigOf 1 7; SigOf 2 7; SigOf 4 7] PNone) = RErr EMultiFailed /\
-  verify_header st (mkHeader 1 5 7 [3; 1] [SigOf 1 7; SigOf 3 7] PNone) = RErr ETooFew.
+  verify_header st (mkHeader 1 5 7 [BkKey 3; BkKey 1; BkKey 2] [SigOf 1 7; SigOf 2 7] PNone) = RErr ENotEnoughSigs /\
+  verify_header st (mkHeader 1 5 7 [BkKey 3; BkKey 1; BkKey 2] [SigOf 1 7; SigOf 2 7; SigOf 4 7] PNone) = RErr EMultiFailed /\
+  verify_header st (mkHeader 1 5 7 [BkKey 3; BkKey 1] [SigOf 1 7; SigOf 3 7] PNone) = RErr ETooFew.
 Proof. vm_compute. repeat split; reflexivity. Qed.
 
 (** Non-vacuity of the epoch rule: key headers 200 then 100 delivered out of order after genesis 0
@@ -254,16 +282,25 @@ Proof. vm_compute. repeat split; reflexivity. Qed.
     stored list is [200; 100; 0], a header at 250 is governed by P200, one at 150 by P100. *)
 Example c33_epochs_nonvacuous :
   let g := mkHeader 1 0 1 [] [] (PPeers [1; 2; 3; 4]) in
-  let k200 := mkHeader 1 200 2 [1; 2; 3] [SigOf 1 2; SigOf 2 2; SigOf 3 2] (PPeers [5; 6; 7; 8]) in
-  let k100 := mkHeader 1 100 3 [2; 3; 4] [SigOf 2 3; SigOf 3 3; SigOf 4 3] (PPeers [1; 2; 5; 6]) in
+  let k200 := mkHeader 1 200 2 [BkKey 1; BkKey 2; BkKey 3] [SigOf 1 2; SigOf 2 2; SigOf 3 2] (PPeers [5; 6; 7; 8]) in
+  let k100 := mkHeader 1 100 3 [BkKey 2; BkKey 3; BkKey 4] [SigOf 2 3; SigOf 3 3; SigOf 4 3] (PPeers [1; 2; 5; 6]) in
   let c1 := snd (sync_genesis (mkC (mkStore [] []) []) g) in
   let c2 := snd (sync_block_header c1 [k200]) in
   let c3 := snd (sync_block_header c2 [k100]) in
   reachable c3 /\
   get_key_heights (c_store c3) 1 = [200; 100; 0] /\
-  verify_header (c_store c3) (mkHeader 1 250 4 [5; 6; 7] [SigOf 5 4; SigOf 6 4; SigOf 7 4] PNone) = ROk /\
-  verify_header (c_store c3) (mkHeader 1 250 4 [1; 2; 5] [SigOf 1 4; SigOf 2 4; SigOf 5 4] PNone) = RErr ENotPeer /\
-  verify_header (c_store c3) (mkHeader 1 150 5 [1; 2; 5] [SigOf 1 5; SigOf 2 5; SigOf 5 5] PNone) = ROk.
+  verify_header (c_store c3) (mkHeader 1 250 4 [BkKey 5; BkKey 6; BkKey 7] [SigOf 5 4; SigOf 6 4; SigOf 7 4] PNone) = ROk /\
+  verify_header (c_store c3) (mkHeader 1 250 4 [BkKey 1; BkKey 2; BkKey 5] [SigOf 1 4; SigOf 2 4; SigOf 5 4] PNone) = RErr ENotPeer /\
+  verify_header (c_store c3) (mkHeader 1 150 5 [BkKey 1; BkKey 2; BkKey 5] [SigOf 1 5; SigOf 2 5; SigOf 5 5] PNone) = ROk.
 Proof.
   cbv zeta. split; [repeat constructor|]. vm_compute. repeat split; reflexivity.
 Qed.
+
+(** Non-vacuity of the hostile-encoding clause: peer 3's id on a forged key, the two other listed
+    peers signing genuinely, any third signature: refused. *)
+Example c33_forged_nonvacuous :
+  let st := mkStore [(1, [0])] [((1, 0), [1; 2; 3; 4])] in
+  verify_header st (mkHeader 1 5 7 [BkForged 3; BkKey 1; BkKey 2] [SigOf 3 7; SigOf 1 7; SigOf 2 7] PNone)
+    = RErr EMultiFailed /\
+  verify_header st (mkHeader 1 5 7 [BkKey 3; BkKey 1; BkKey 2] [SigOf 3 7; SigOf 1 7; SigOf 2 7] PNone) = ROk.
+Proof. vm_compute. split; reflexivity. Qed.
